@@ -261,7 +261,7 @@ def main(argv=None):
     for s in shards:
         s["n"] = max(1, int(round(s.get("n", 100) * a.scale)))
     rdir = os.path.join(VERIF_DIR, "regress", prop)
-    if os.path.isdir(rdir) and not a.shards:
+    if os.path.isdir(rdir) and (not a.shards or "regress" in a.shards.split(",")):
         files = sorted(os.path.join(rdir, f) for f in os.listdir(rdir) if f.endswith(".json"))
         if files:
             shards.insert(0, dict(id="regress", regress=True, files=files, cost=1e9))
